@@ -262,6 +262,15 @@ def absorb(rep, world, res, platform, timeout):
     rc, err, data = res["rc"], res["err"], res["data"]
     wreplay = {"world": world["name"], "wit": world.get("wit"), "opts": world.get("opts"), "platform": platform}
     if data is not None:
+        for smp in data.get("samples", []):
+            # show the reader the WIT the sampled call belongs to
+            fn = str(smp.get("func", ""))
+            short = re.split(r"[#|]", fn)[-1]
+            short = short.split("]")[-1].split(".")[-1] if short else short
+            lines = [l.strip() for l in (world.get("wit") or "").splitlines() if short and re.search(r"(^|[\s%%])%s:" % re.escape(short), l)]
+            smp["wit_excerpt"] = lines[:3] or (world.get("wit") or "")[:300]
+            smp["platform"] = platform
+            smp.setdefault("opts", json.dumps(world.get("opts")))
         for v in data.get("violations", []):
             v.setdefault("replay", {})
             v["replay"]["platform"] = platform
@@ -425,6 +434,10 @@ def run_pipeline(prop, mode, tier, seed, replay=None):
                             continue
                         rep.violation("rust-mem:%s:%s" % (kind, fk), "[valgrind] %s\n%s [opts %s]" % (kind, text, json.dumps(worlds[n]["opts"])),
                                       {"world": n, "wit": worlds[n]["wit"], "opts": worlds[n]["opts"], "platform": "valgrind-release"})
+        if not rep.samples and ok:
+            # never an empty sample list: at least the first world as generated
+            w0 = ok[0]
+            rep.samples.append({"world": w0["name"], "origin": w0.get("origin"), "opts": w0.get("opts"), "wit": w0.get("wit", "")[:1500]})
         rep.extra["runs_by_platform"] = plat_counts
         rep.extra["run_seconds_by_platform"] = plat_secs
         rep.extra["pipeline_s"] = round(time.time() - t_start, 1)
